@@ -1,6 +1,7 @@
-(* C16 round trip: parsing the canonical text of a documented type / statement gives back exactly the tree
-   (the embed functions), for types of unbounded depth.  Induction on the size of the type; the parser is executed
-   symbolically on `show t ++ rest` with the lexer shape lemmas of AnnLexFacts.v. *)
+(* C16 round trip: parsing the text of a documented type / statement gives back exactly the tree
+   (the embed functions), for types of unbounded depth and for both printers of Spec/AnnGrammar.v (`nested`:
+   the canonical one writes `(T[])[]`, the plain one `T[][]`).  Induction on the size of the type; the parser is
+   executed symbolically on `show t ++ rest` with the lexer shape lemmas of AnnLexFacts.v. *)
 From Coq Require Import String Ascii List Arith NArith Bool Lia ZifyN ZifyNat ZifyBool.
 From LH Require Import Base.Bytes Base.Res Model.AnnLexer Model.AnnAst Model.AnnParser Spec.AnnGrammar
   Proofs.AnnLexFacts.
@@ -100,34 +101,38 @@ Definition primary (f : nat) (l : lx) : PR atype :=
      POk (AConst (fst sq) (snd sq) []) l
    else error_print 3%N KEOF s_not_find l).
 
-Definition suffix (sub : atype) (l : lx) : PR atype :=
-  let* (k2, l) := look_ahead_kind l in
-  if kind_eqb k2 KLbrack then
-    let* (_, l) := next_of_kind KLbrack l in
-    let* (_, l) := next_of_kind KRbrack l in
-    POk (AArray sub) l
-  else POk sub l.
-
-Lemma single_unfold f l : parse_single_type (S f) l = pbind (primary f l) suffix.
+Lemma single_unfold f l : parse_single_type (S f) l = pbind (primary f l) (array_suffix_loop f).
 Proof.
   cbn [parse_single_type]. unfold primary. destruct (look_ahead_kind l); reflexivity.
 Qed.
 
-Lemma suffix_plain sub l rest' tk :
-  look_ahead l = Ok (StA rest' tk) -> tkind tk <> KLbrack -> suffix sub l = POk sub (StA rest' tk).
+(* n array suffixes: the text "[][]...[]" and the tree it builds around the item *)
+Fixpoint brs (n : nat) : bytes := match n with O => [] | S n => t_brackets ++ brs n end.
+Fixpoint arrs (n : nat) (a : atype) : atype := match n with O => a | S n => arrs n (AArray a) end.
+
+Lemma brs_length n : length (brs n) = 2 * n.
+Proof. induction n as [|n IH]; [reflexivity|]. cbn [brs]. rewrite app_length, IH. cbn [length t_brackets]. lia. Qed.
+
+Lemma suffix_plain f sub l rest' tk :
+  look_ahead l = Ok (StA rest' tk) -> tkind tk <> KLbrack -> array_suffix_loop (S f) sub l = POk sub (StA rest' tk).
 Proof.
-  intros Hl Hk. unfold suffix. rewrite (lak_of _ _ _ Hl). cbn [pbind].
+  intros Hl Hk. cbn [array_suffix_loop]. rewrite (lak_of _ _ _ Hl). cbn [pbind].
   apply kind_eqb_neq in Hk. rewrite Hk. reflexivity.
 Qed.
 
-Lemma suffix_array sub l rest :
-  At (t_brackets ++ rest) l -> suffix sub l = POk (AArray sub) (St rest).
+(* the loop reads every suffix and stops at the first token that is not "[" *)
+Lemma suffix_arrays : forall n f sub l rest tk rest',
+  At (brs n ++ rest) l -> lex_token rest = Ok (tk, rest') -> tkind tk <> KLbrack -> n + 1 <= f ->
+  array_suffix_loop f sub l = POk (arrs n sub) (StA rest' tk).
 Proof.
-  intros Hat. unfold suffix.
-  rewrite (lak_of _ _ _ (At_la _ _ _ _ Hat (lex_lbrack _))). cbn [pbind tkind].
-  change (kind_eqb KLbrack KLbrack) with true. cbv iota.
-  rewrite nok_StA by reflexivity. cbn [pbind].
-  rewrite (nok_St _ _ _ _ (lex_rbrack _)) by reflexivity. reflexivity.
+  induction n as [|n IH]; intros f sub l rest tk rest' Hat Hlex Hk Hf; (destruct f as [|f]; [lia|]).
+  - cbn [brs app] in Hat. cbn [arrs]. apply suffix_plain; [eapply At_la; eassumption | exact Hk].
+  - cbn [brs] in Hat. rewrite <- app_assoc in Hat. cbn [array_suffix_loop arrs].
+    rewrite (lak_of _ _ _ (At_la _ _ _ _ Hat (lex_lbrack _))). cbn [pbind tkind].
+    change (kind_eqb KLbrack KLbrack) with true. cbv iota.
+    rewrite nok_StA by reflexivity. cbn [pbind].
+    rewrite (nok_St _ _ _ _ (lex_rbrack _)) by reflexivity. cbn [pbind].
+    apply (IH f (AArray sub) _ rest tk rest' (At_St _) Hlex Hk). lia.
 Qed.
 
 (* ------------------------------------------------------------------ sizes *)
@@ -225,7 +230,9 @@ Proof.
 Qed.
 
 (* ------------------------------------------------------------------ the claims *)
-Notation shw := (show_bare true).
+Section Claims.
+Variable nested : bool.          (* which printer: true = canonical `(T[])[]`, false = plain `T[][]` *)
+Notation shw := (show_bare nested).
 
 Definition cond_prim (t : dtype) (k : akind) : Prop :=
   k <> KLt /\ (is_fun t = true -> k <> KColon /\ k <> KComma /\ k <> KBor /\ k <> KLbrack).
@@ -236,15 +243,24 @@ Definition ClaimA (t : dtype) : Prop :=
     is_union t = false -> is_array t = false ->
     At (shw t ++ rest) l -> Fol rest tk rest' -> cond_prim t (tkind tk) ->
     2 * length (shw t) + 12 <= f ->
-    exists l', primary f l = POk (embed_bare t) l' /\ look_ahead l' = Ok (StA rest' tk).
+    exists l', primary f l = POk (embed_bare nested t) l' /\ look_ahead l' = Ok (StA rest' tk).
 
-(* parserSingleType on the bare text of a type that is not a union *)
+(* parserSingleType on the bare text of a type that is not a union, followed by n further array suffixes
+   (a fun type is never directly followed by "[": its last return type would take the suffix) *)
+Definition ClaimBn (t : dtype) : Prop :=
+  forall f l n rest tk rest',
+    is_union t = false -> (is_fun t = true -> n = 0) ->
+    At (shw t ++ brs n ++ rest) l -> Fol rest tk rest' -> cond_prim t (tkind tk) -> tkind tk <> KLbrack ->
+    2 * length (shw t) + 4 * n + 14 <= f ->
+    exists l', parse_single_type f l = POk (arrs n (embed_bare nested t)) l' /\ look_ahead l' = Ok (StA rest' tk).
+
+(* ... the case n = 0 *)
 Definition ClaimB (t : dtype) : Prop :=
   forall f l rest tk rest',
     is_union t = false ->
     At (shw t ++ rest) l -> Fol rest tk rest' -> cond_prim t (tkind tk) -> tkind tk <> KLbrack ->
     2 * length (shw t) + 14 <= f ->
-    exists l', parse_single_type f l = POk (embed_bare t) l' /\ look_ahead l' = Ok (StA rest' tk).
+    exists l', parse_single_type f l = POk (embed_bare nested t) l' /\ look_ahead l' = Ok (StA rest' tk).
 
 (* parserOneType on the bare text of any type *)
 Definition ClaimC (t : dtype) : Prop :=
@@ -252,7 +268,7 @@ Definition ClaimC (t : dtype) : Prop :=
     At (shw t ++ rest) l -> Fol rest tk rest' -> cond_prim t (tkind tk) ->
     tkind tk <> KLbrack -> tkind tk <> KBor ->
     2 * length (shw t) + 18 <= f ->
-    parse_one_type f l = POk (embed_one t) (StA rest' tk).
+    parse_one_type f l = POk (embed_one nested t) (StA rest' tk).
 
 (* ---- leaves *)
 Lemma claimA_name n : doc_type (DName n) = true -> ClaimA (DName n).
@@ -304,19 +320,37 @@ Proof.
   rewrite (lak_St _ _ _ Hlex). cbn [pbind]. rewrite (kind_neq_false _ _ Hlt). reflexivity.
 Qed.
 
-(* ---- from the primary part to parserSingleType (types that are not arrays) *)
-Lemma claimB_of_A t : is_array t = false -> ClaimA t -> ClaimB t.
+Lemma fol_brackets rest : Fol (t_brackets ++ rest) (mkTok KLbrack [91%N]) (93%N :: rest).
+Proof. split; reflexivity. Qed.
+
+Lemma claimB_of_gen t : ClaimBn t -> ClaimB t.
 Proof.
-  intros Har HA f l rest tk rest' Hu Hat Hfol Hc Hk Hf.
+  intros HB f l rest tk rest' Hu Hat Hfol Hc Hk Hf.
+  apply (HB f l 0 rest tk rest' Hu (fun _ => eq_refl) Hat Hfol Hc Hk). lia.
+Qed.
+
+(* ---- from the primary part to parserSingleType (types that are not arrays) *)
+Lemma claimBn_of_A t : is_array t = false -> ClaimA t -> ClaimBn t.
+Proof.
+  intros Har HA f l n rest tk rest' Hu Hfn Hat [Hlex Hstop] Hc Hk Hf.
   destruct f as [|f]; [lia|]. rewrite single_unfold.
-  destruct (HA f l rest tk rest' Hu Har Hat Hfol Hc ltac:(lia)) as (l' & -> & Hl'). cbn [pbind].
-  exists (StA rest' tk). split; [|reflexivity]. apply suffix_plain; assumption.
+  exists (StA rest' tk). split; [|reflexivity].
+  destruct n as [|n].
+  - cbn [brs app] in Hat.
+    destruct (HA f l rest tk rest' Hu Har Hat (conj Hlex Hstop) Hc ltac:(lia)) as (l' & -> & Hl'). cbn [pbind].
+    destruct f as [|f]; [lia|]. cbn [arrs]. apply suffix_plain; assumption.
+  - assert (Hc' : cond_prim t KLbrack).
+    { split; [discriminate|]. intros Hfun. specialize (Hfn Hfun). discriminate Hfn. }
+    assert (Hat' : At (shw t ++ t_brackets ++ brs n ++ rest) l) by (cbn [brs] in Hat; rewrite <- app_assoc in Hat; exact Hat).
+    destruct (HA f l _ _ _ Hu Har Hat' (fol_brackets (brs n ++ rest)) Hc' ltac:(lia)) as (l' & -> & Hl'). cbn [pbind].
+    apply (suffix_arrays (S n) f _ l' rest tk rest'); [|exact Hlex|exact Hk|lia].
+    cbn [brs]. rewrite <- app_assoc. eapply la_At; [exact Hl'|reflexivity].
 Qed.
 
 (* ---- a parenthesised type *)
 Lemma paren_primary t : ClaimC t ->
   forall f l rest, At (40%N :: shw t ++ 41%N :: rest) l -> 2 * length (shw t) + 18 <= f ->
-                   primary f l = POk (embed_one t) (St rest).
+                   primary f l = POk (embed_one nested t) (St rest).
 Proof.
   intros HC f l rest Hat Hf.
   pose proof (At_la _ _ _ _ Hat (lex_lparen _)) as Hl.
@@ -364,44 +398,43 @@ Proof. destruct b; cbn [paren]; [rewrite app_length; cbn [length]; rewrite app_l
 
 Lemma sub_one t : ClaimC t ->
   forall f l rest tk rest',
-    At (show_sub true t ++ rest) l -> Fol rest tk rest' -> ok_follow (tkind tk) ->
-    2 * length (show_sub true t) + 18 <= f ->
-    parse_one_type f l = POk (embed_sub t) (StA rest' tk).
+    At (show_sub nested t ++ rest) l -> Fol rest tk rest' -> ok_follow (tkind tk) ->
+    2 * length (show_sub nested t) + 18 <= f ->
+    parse_one_type f l = POk (embed_sub nested t) (StA rest' tk).
 Proof.
   intros HC f l rest tk rest' Hat Hfol (K1 & K2 & K3) Hf.
   unfold show_sub, embed_sub, wrap_sub, sub_paren in *. rewrite paren_length in Hf.
   destruct (is_fun t) eqn:Hfun; cbn [paren] in *.
-  - destruct f as [|[|[|f]]]; try lia.
+  - destruct f as [|[|[|[|f]]]]; try lia.
     eapply one_from_single; [exact Hat| |exact K2].
     intros l1 Hat1. rewrite single_unfold.
     cbn [app] in Hat1. rewrite <- app_assoc in Hat1. cbn [app] in Hat1.
-    rewrite (paren_primary t HC f l1 rest Hat1) by lia. cbn [pbind].
+    rewrite (paren_primary t HC (S f) l1 rest Hat1) by lia. cbn [pbind].
     destruct Hfol as [Hlex Hstop].
     exists (StA rest' tk). split; [|reflexivity]. apply suffix_plain; [apply la_St; exact Hlex | exact K1].
   - apply (HC f l rest tk rest' Hat Hfol); [split; [exact K3 | rewrite Hfun; discriminate] | exact K1 | exact K2 | lia].
 Qed.
 
 (* ------------------------------------------------------------------ arrays *)
-Lemma fol_brackets rest : Fol (t_brackets ++ rest) (mkTok KLbrack [91%N]) (93%N :: rest).
-Proof. split; reflexivity. Qed.
-
-Lemma claimB_array i : ClaimA i -> ClaimC i -> ClaimB (DArray i).
+(* T[]: a parenthesised item is a primary followed by the suffixes; an item that is not parenthesised (a name,
+   a table, a constant -- or, for the plain printer, an array) is read by the same call with one more suffix *)
+Lemma claimBn_array i : ClaimBn i -> ClaimC i -> ClaimBn (DArray i).
 Proof.
-  intros HA HC f l rest tk rest' _ Hat [Hlex Hstop] _ Hk Hf.
+  intros HB HC f l n rest tk rest' _ _ Hat [Hlex Hstop] [Hlt _] Hk Hf.
   cbn [show_bare] in Hat, Hf. rewrite app_length, paren_length in Hf. cbn [length t_brackets] in Hf.
-  rewrite <- app_assoc in Hat.
-  destruct f as [|f]; [lia|]. rewrite single_unfold.
-  exists (St rest). split; [|apply la_St; exact Hlex].
-  cbn [embed_bare]. unfold wrap_item. unfold item_paren in *. cbn [andb] in *.
-  destruct (is_union i || is_fun i || is_array i) eqn:Hp; cbn [paren] in *.
-  - cbn [app] in Hat. rewrite <- app_assoc in Hat. cbn [app] in Hat.
-    rewrite (paren_primary i HC f l (t_brackets ++ rest) Hat) by lia. cbn [pbind].
-    apply suffix_array. apply At_St.
-  - apply orb_false_iff in Hp as [Hp Har]. apply orb_false_iff in Hp as [Hu Hfu].
-    destruct (HA f l (t_brackets ++ rest) _ _ Hu Har Hat (fol_brackets rest)) as (l' & -> & Hl').
-    { split; [discriminate | rewrite Hfu; discriminate]. }
-    { lia. }
-    cbn [pbind]. apply suffix_array. eapply la_At; [exact Hl' | reflexivity].
+  rewrite <- !app_assoc in Hat.
+  cbn [embed_bare]. unfold wrap_item.
+  destruct (item_paren nested i) eqn:Hp; cbn [paren] in *.
+  - destruct f as [|f]; [lia|]. rewrite single_unfold.
+    exists (StA rest' tk). split; [|reflexivity].
+    cbn [app] in Hat. rewrite <- app_assoc in Hat. cbn [app] in Hat.
+    rewrite (paren_primary i HC f l (t_brackets ++ brs n ++ rest) Hat) by lia. cbn [pbind].
+    apply (suffix_arrays (S n) f _ _ rest tk rest'); [|exact Hlex|exact Hk|lia].
+    cbn [brs]. rewrite <- app_assoc. apply At_St.
+  - unfold item_paren in Hp. apply orb_false_iff in Hp as [Hp _]. apply orb_false_iff in Hp as [Hu Hfu].
+    apply (HB f l (S n) rest tk rest' Hu); [rewrite Hfu; discriminate| |split; assumption| |exact Hk|lia].
+    + cbn [brs]. rewrite <- app_assoc. exact Hat.
+    + split; [exact Hlt|rewrite Hfu; discriminate].
 Qed.
 
 (* ------------------------------------------------------------------ unions *)
@@ -411,7 +444,7 @@ Lemma join_one sep x : join sep [x] = x.
 Proof. reflexivity. Qed.
 
 Definition mtext (m : dtype) : bytes := paren (member_paren m) (shw m).
-Definition membed (m : dtype) : atype := wrap_member m (embed_bare m).
+Definition membed (m : dtype) : atype := wrap_member m (embed_bare nested m).
 
 (* parserSingleType on a union member *)
 Definition ClaimM (m : dtype) : Prop :=
@@ -425,9 +458,9 @@ Proof.
   intros HB HC f l rest tk rest' Hat Hfol K1 K3 Hf.
   unfold mtext, membed, wrap_member in *. rewrite paren_length in Hf.
   destruct (member_paren m) eqn:Hp; cbn [paren] in *.
-  - destruct f as [|f]; [lia|]. rewrite single_unfold.
+  - destruct f as [|[|f]]; [lia|lia|]. rewrite single_unfold.
     cbn [app] in Hat. rewrite <- app_assoc in Hat. cbn [app] in Hat.
-    rewrite (paren_primary m HC f l rest Hat) by lia. cbn [pbind].
+    rewrite (paren_primary m HC (S f) l rest Hat) by lia. cbn [pbind].
     destruct Hfol as [Hlex Hstop].
     exists (StA rest' tk). split; [|reflexivity]. apply suffix_plain; [apply la_St; exact Hlex | exact K1].
   - unfold member_paren in Hp. apply orb_false_iff in Hp as [Hu Hfu].
@@ -486,11 +519,11 @@ Lemma ok_follow_rparen : ok_follow KRparen. Proof. repeat split; discriminate. Q
 Lemma claimA_table k v : ClaimC k -> ClaimC v -> ClaimA (DTable k v).
 Proof.
   intros HCk HCv f l rest tk rest' _ _ Hat [Hlex Hstop] _ Hf.
-  cbn [show_bare] in Hat, Hf. fold (show_sub true k) in *. fold (show_sub true v) in *.
+  cbn [show_bare] in Hat, Hf. fold (show_sub nested k) in *. fold (show_sub nested v) in *.
   rewrite !app_length in Hf. cbn [length t_table_lt t_comma] in Hf.
   rewrite <- !app_assoc in Hat.
-  assert (Hk : lex_token (t_table_lt ++ show_sub true k ++ t_comma ++ show_sub true v ++ [62%N] ++ rest)
-               = Ok (mkTok KTable t_table, 60%N :: show_sub true k ++ t_comma ++ show_sub true v ++ [62%N] ++ rest)).
+  assert (Hk : lex_token (t_table_lt ++ show_sub nested k ++ t_comma ++ show_sub nested v ++ [62%N] ++ rest)
+               = Ok (mkTok KTable t_table, 60%N :: show_sub nested k ++ t_comma ++ show_sub nested v ++ [62%N] ++ rest)).
   { apply (lex_kw_table (60%N :: _)). reflexivity. }
   pose proof (At_la _ _ _ _ Hat Hk) as Hl.
   exists (St rest). split; [|apply la_St; exact Hlex].
@@ -514,7 +547,7 @@ Definition ptext (p : bytes * bool * option dtype) : bytes :=
   end.
 Definition pembed (p : bytes * bool * option dtype) : bytes * bool * atype :=
   match p with
-  | (n, o, ot) => (n, o, match ot with Some t => wrap_sub t (embed_bare t) | None => ANormal [97; 110; 121]%N false end)
+  | (n, o, ot) => (n, o, match ot with Some t => wrap_sub t (embed_bare nested t) | None => ANormal [97; 110; 121]%N false end)
   end.
 Definition PClaim (p : bytes * bool * option dtype) : Prop :=
   match p with (n, _, ot) => param_name_ok n = true /\ match ot with Some t => ClaimC t | None => True end end.
@@ -560,7 +593,7 @@ Proof.
     + rewrite <- !app_assoc. unfold t_colon at 1. cbn [app].
       rewrite (lak_St _ _ _ (lex_colon _)). cbn [pbind tkind snd fst]. kcomp.
       rewrite nok_StA by reflexivity. cbn [pbind].
-      rewrite !app_length in Hf. cbn [length t_colon] in Hf. fold (show_sub true t) in *.
+      rewrite !app_length in Hf. cbn [length t_colon] in Hf. fold (show_sub nested t) in *.
       rewrite (sub_one t Hot f _ Z tz Z' (At_sp _) (conj HlexZ HstopZ) Kfol) by lia. cbn [pbind].
       rewrite lak_StA. reflexivity.
     + cbn [app]. rewrite (lak_St _ _ _ HlexZ). cbn [pbind snd fst]. rewrite Kcolon. cbn [pbind].
@@ -570,7 +603,7 @@ Proof.
       rewrite (lak_St _ _ _ (lex_colon _)). cbn [pbind tkind snd fst]. kcomp.
       cbn [pbind snd fst]. kcomp.
       rewrite nok_StA by reflexivity. cbn [pbind].
-      rewrite !app_length in Hf. cbn [length t_colon] in Hf. fold (show_sub true t) in *.
+      rewrite !app_length in Hf. cbn [length t_colon] in Hf. fold (show_sub nested t) in *.
       rewrite (sub_one t Hot f _ Z tz Z' (At_sp _) (conj HlexZ HstopZ) Kfol) by lia. cbn [pbind].
       rewrite lak_StA. reflexivity.
     + cbn [app]. rewrite (lak_St _ _ _ HlexZ). cbn [pbind]. rewrite Kopt. cbn [pbind snd fst]. rewrite Kcolon.
@@ -600,10 +633,10 @@ Qed.
 
 Lemma rets_loop rs : rs <> [] -> Forall ClaimC rs ->
   forall f acc l rest tk rest',
-    At (join t_comma (map (show_sub true) rs) ++ rest) l -> Fol rest tk rest' ->
+    At (join t_comma (map (show_sub nested) rs) ++ rest) l -> Fol rest tk rest' ->
     ok_follow (tkind tk) -> tkind tk <> KComma ->
-    2 * length (join t_comma (map (show_sub true) rs)) + 19 <= f ->
-    fun_rets_loop f acc l = POk (acc ++ map embed_sub rs) (StA rest' tk).
+    2 * length (join t_comma (map (show_sub nested) rs)) + 19 <= f ->
+    fun_rets_loop f acc l = POk (acc ++ map (embed_sub nested) rs) (StA rest' tk).
 Proof.
   induction rs as [|r rs IH]; [congruence|]. intros _ HF f acc l rest tk rest' Hat Hfol Hok Hk Hf.
   inversion HF as [|? ? Hr HF']; subst.
@@ -649,7 +682,7 @@ Lemma fun_type_rt ps rs : Forall PClaim ps -> Forall ClaimC rs ->
     At (shw (DFun ps rs) ++ rest) l -> Fol rest tk rest' ->
     tkind tk <> KLt -> tkind tk <> KColon -> tkind tk <> KComma -> tkind tk <> KBor -> tkind tk <> KLbrack ->
     2 * length (shw (DFun ps rs)) + 12 <= f ->
-    parse_fun_type f l = POk (embed_bare (DFun ps rs)) (StA rest' tk).
+    parse_fun_type f l = POk (embed_bare nested (DFun ps rs)) (StA rest' tk).
 Proof.
   intros HP HR f l rest tk rest' Hat [Hlex Hstop] K3 Kc Kcm K2 K1 Hf.
   cbn [show_bare embed_bare] in *.
@@ -658,15 +691,15 @@ Proof.
                  | (n, o, ot) => n ++ (if o then [63%N] else []) ++
                                  match ot with Some t => t_colon ++ paren (sub_paren t) (shw t) | None => [] end
                  end) ps) with (map ptext ps) in *.
-  change (map (fun r : dtype => paren (sub_paren r) (shw r)) rs) with (map (show_sub true) rs) in *.
+  change (map (fun r : dtype => paren (sub_paren r) (shw r)) rs) with (map (show_sub nested) rs) in *.
   change (map (fun p : bytes * bool * option dtype =>
                  match p with
                  | (n, o, ot) => (n, o, match ot with
-                                        | Some t => wrap_sub t (embed_bare t)
+                                        | Some t => wrap_sub t (embed_bare nested t)
                                         | None => ANormal [97%N; 110%N; 121%N] false
                                         end)
                  end) ps) with (map pembed ps).
-  change (map (fun r : dtype => wrap_sub r (embed_bare r)) rs) with (map embed_sub rs).
+  change (map (fun r : dtype => wrap_sub r (embed_bare nested r)) rs) with (map (embed_sub nested) rs).
   rewrite !app_length in Hf. cbn [length t_fun] in Hf.
   rewrite <- !app_assoc in Hat.
   pose proof (At_la _ _ _ _ Hat (lex_kw_fun _)) as Hl.
@@ -675,7 +708,7 @@ Proof.
   rewrite (lak_St _ _ _ (lex_lparen _)). cbn [pbind tkind]. kcomp. cbn [pbind].
   rewrite nok_StA by reflexivity. cbn [pbind].
   (* parameters *)
-  set (tail := (if is_nil rs then [] else t_colon ++ join t_comma (map (show_sub true) rs)) ++ rest) in *.
+  set (tail := (if is_nil rs then [] else t_colon ++ join t_comma (map (show_sub nested) rs)) ++ rest) in *.
   assert (Hps : (let* (k, l0) := look_ahead_kind (St (join t_comma (map ptext ps) ++ [41%N] ++ tail)) in
                  let* (ps0, l1) := (if kind_eqb k KRparen then POk [] l0 else fun_params_loop f [] l0) in
                  let* (_, l2) := next_of_kind KRparen l1 in POk ps0 l2) = POk (map pembed ps) (St tail)).
@@ -730,19 +763,19 @@ Qed.
 Lemma tsize_pos t : 1 <= tsize t.
 Proof. destruct t; cbn; lia. Qed.
 
-Lemma claims_all : forall n t, tsize t <= n -> doc_type t = true -> ClaimA t /\ ClaimB t /\ ClaimC t.
+Lemma claims_all : forall n t, tsize t <= n -> doc_type t = true -> ClaimA t /\ ClaimBn t /\ ClaimC t.
 Proof.
   induction n as [|n IH]; intros t Hs Hd; [pose proof (tsize_pos t); lia|].
-  assert (leaf : forall t, is_union t = false -> is_array t = false -> ClaimA t -> ClaimA t /\ ClaimB t /\ ClaimC t).
-  { intros t0 Hu Ha HA. pose proof (claimB_of_A t0 Ha HA) as HB.
-    split; [exact HA|]. split; [exact HB|]. apply claimC_of_B; assumption. }
+  assert (leaf : forall t, is_union t = false -> is_array t = false -> ClaimA t -> ClaimA t /\ ClaimBn t /\ ClaimC t).
+  { intros t0 Hu Ha HA. pose proof (claimBn_of_A t0 Ha HA) as HB.
+    split; [exact HA|]. split; [exact HB|]. apply claimC_of_B; [assumption|]. apply claimB_of_gen. exact HB. }
   destruct t as [nm|s q|i| |k v|ps rs|ts].
   - apply leaf; [reflexivity|reflexivity|]. apply claimA_name. exact Hd.
   - apply leaf; [reflexivity|reflexivity|]. apply claimA_const. exact Hd.
-  - cbn [tsize doc_type] in Hs, Hd. destruct (IH i ltac:(lia) Hd) as (HAi & HBi & HCi).
-    pose proof (claimB_array i HAi HCi) as HB.
+  - cbn [tsize doc_type] in Hs, Hd. destruct (IH i ltac:(lia) Hd) as (_ & HBi & HCi).
+    pose proof (claimBn_array i HBi HCi) as HB.
     split; [intros ? ? ? ? ? _ Hcontra; discriminate Hcontra|]. split; [exact HB|].
-    apply claimC_of_B; [reflexivity | exact HB].
+    apply claimC_of_B; [reflexivity | apply claimB_of_gen; exact HB].
   - apply leaf; [reflexivity|reflexivity|]. apply claimA_table0.
   - cbn [tsize doc_type] in Hs, Hd. apply andb_true_iff in Hd as [Hdk Hdv].
     destruct (IH k ltac:(lia) Hdk) as (_ & _ & HCk). destruct (IH v ltac:(lia) Hdv) as (_ & _ & HCv).
@@ -760,14 +793,17 @@ Proof.
       pose proof (list_sum_in tsize _ _ Hin) as Hsz. apply (IH r ltac:(lia) (Hdr _ Hin)).
   - cbn [tsize doc_type] in Hs, Hd. apply andb_true_iff in Hd as [Hlen Hdt]. apply Nat.leb_le in Hlen.
     split; [intros ? ? ? ? ? Hcontra; discriminate Hcontra|].
-    split; [intros ? ? ? ? ? Hcontra; discriminate Hcontra|].
+    split; [intros ? ? ? ? ? ? Hcontra; discriminate Hcontra|].
     apply claimC_union; [exact Hlen|].
     apply Forall_forall. intros m Hin. rewrite forallb_forall in Hdt.
     pose proof (list_sum_in tsize _ _ Hin) as Hsz.
-    destruct (IH m ltac:(lia) (Hdt _ Hin)) as (_ & HBm & HCm). apply claimM_of; assumption.
+    destruct (IH m ltac:(lia) (Hdt _ Hin)) as (_ & HBm & HCm). apply claimM_of; [apply claimB_of_gen|]; assumption.
 Qed.
 
 Lemma claimC_all t : doc_type t = true -> ClaimC t.
+Proof. intros Hd. apply (claims_all (tsize t) t (le_n _) Hd). Qed.
+
+Lemma claimBn_all t : doc_type t = true -> ClaimBn t.
 Proof. intros Hd. apply (claims_all (tsize t) t (le_n _) Hd). Qed.
 
 Lemma fol_nil : Fol [] (mkTok KEOF s_EOF) [].
@@ -777,10 +813,10 @@ Lemma cond_prim_eof t : cond_prim t KEOF.
 Proof. split; [discriminate|]. intros _. repeat split; discriminate. Qed.
 
 (* ------------------------------------------------------------------ C16_type_roundtrip *)
-Theorem type_roundtrip : forall t, doc_type t = true ->
-  parse_type (fuel_of (show_type t)) (show_type t) = Ok (inl (embed_one t, [])).
+Theorem type_roundtrip_gen : forall t, doc_type t = true ->
+  parse_type (fuel_of (shw t)) (shw t) = Ok (inl (embed_one nested t, [])).
 Proof.
-  intros t Hd. unfold parse_type, show_type.
+  intros t Hd. unfold parse_type.
   rewrite (claimC_all t Hd (fuel_of (shw t)) (St (shw t)) [] (mkTok KEOF s_EOF) []).
   - reflexivity.
   - rewrite app_nil_r. apply At_St.
@@ -790,3 +826,14 @@ Proof.
   - discriminate.
   - unfold fuel_of. lia.
 Qed.
+
+End Claims.
+
+Theorem type_roundtrip : forall t, doc_type t = true ->
+  parse_type (fuel_of (show_type t)) (show_type t) = Ok (inl (embed_type t, [])).
+Proof. exact (type_roundtrip_gen true). Qed.
+
+(* the plain text: T[][]... without parentheses *)
+Theorem type_roundtrip_plain : forall t, doc_type t = true ->
+  parse_type (fuel_of (show_type_plain t)) (show_type_plain t) = Ok (inl (embed_type_plain t, [])).
+Proof. exact (type_roundtrip_gen false). Qed.
